@@ -74,7 +74,23 @@ class KDTree:
             else: # the leaf needs to be split
                 # split the points according to the current axis
                 split_value, pts_less, pts_more = self._split_points(leaf.points, leaf.split_axis)
-                
+                n_tries = 0
+                while (pts_less.size==0 or pts_more.size==0) and n_tries<self.dim:
+                    # degenerate split (the pivot is the largest coordinate, e.g. repeated points): split right above the smallest
+                    # coordinate on the first axis that has an extent, so that both sides are non empty
+                    coords = self.points[leaf.points, leaf.split_axis]
+                    if coords.min() < coords.max():
+                        split_value = coords.min()
+                        pts_less = np.extract(coords<=split_value, leaf.points)
+                        pts_more = np.extract(coords>split_value, leaf.points)
+                    else:
+                        leaf.split_axis = (leaf.split_axis+1)%self.dim
+                        n_tries += 1
+                if pts_less.size==0 or pts_more.size==0:
+                    # all the points are identical: they cannot be separated and stay together in one leaf
+                    self.nodes.append(leaf)
+                    continue
+
                 # we create a new node to replace the original leaf and append two leaves that will be its children
                 node = KDTree.Node(leaf.id, leaf.split_axis, parent=leaf.parent, bb=leaf.bb, split_value=split_value)
                 leaf_less = self._new_leaf((leaf.split_axis + 1)%self.dim, leaf.id, pts_less)
